@@ -4,10 +4,19 @@
   `SMGo/Gen/SM4Code.lean` is written by the translator `gosm4` (go/cmd/translate/gosm4.go) from /repo/sm4/sm4.go on every
   check: one `let` per Go statement for `tau`, `transTPrime`, `ss`, `ssX2`, `cryptoBlock` (32 unrolled round
   statements), `cryptoBlockX2` (two blocks in 64-bit words), `byte16ToUint32`, `expandKey` (its loop unrolled by the
-  translator), `newCipherGeneric`, `newCipher` (sm4_generic.go) and `NewCipher` (the key-length test); table look-ups
-  index the tables regenerated from sm4_const.go (`Gen.SM4Const`) through `arrGet`, which takes a PROOF that the index
-  is in range (a byte index `0xff & e` into 256 entries, or a constant), so there is no default value and no
-  out-of-range case anywhere in the generated code.
+  translator), `newCipherGeneric`, `newCipher` (sm4_generic.go) and `NewCipher` (the key-length test).
+  Bounds, in two parts.  (1) Look-ups in the PACKAGE-LEVEL tables regenerated from sm4_const.go (`Gen.SM4Const`: sbox,
+  s0..s3, ck) go through `arrGet`, which takes a PROOF that the index is in range (a byte index `0xff & e` into 256
+  entries, or a constant): for these there is no default value and no out-of-range case.  (2) Everything reached through
+  PARAMETERS and LOCALS is total list code with defaults: `rk.getD i 0`, `mks.getD i 0`, `List.set`, `slice` (take/drop),
+  `beUint32` (`getD`) and `putUint32` (`set`) never fail in Lean; Go's run-time bounds checks on them are not in the
+  definitions but in the generated predicates `<fn>_pre` (all these indices and slice bounds are constants; the translator
+  checks them against declared array lengths and collects the minimal slice lengths).  The theorems below pin `_pre` from
+  both sides: every `gen_…_eq_model` / `…_eq_spec` theorem has it as its hypothesis (under `_pre` the total Lean code is
+  the Go code, no default is ever produced), and the call-shape theorems (`gen_cryptoBlock_eq_spec_block`,
+  `gen_cryptoBlockX2_eq_spec`, `C05_portable_gen`, `gen_NewCipher_rejects/accepts`) discharge it from what the callers in
+  sm4.go establish (exact lengths 16 / 32; `NewCipher` reaches `expandKey` only after its own length test).  Outside
+  `_pre` the Lean value is a default-filled list while Go panics: no statement is made there.
 
   This file states that the generated definitions EQUAL the hand-written model `SMGo/Model/SM4Block.lean` (the object
   of Props/C05.lean) for ALL inputs, and composes with the lemmas behind Props/C05.lean: the generated code computes
